@@ -204,6 +204,8 @@ def ev(e, env):
         vals = [ev(x, env) for x in e[3]]
         if e[2] == 'map':
             vals = [float(v) for v in vals]      # the rendered form is map(float, [...])
+        if e[2] == 'reversed':
+            vals = vals[::-1]                    # floating-point addition is not associative: the order of summation is part of the expression
         if e[2] == 'filter':
             vals = [v for v in vals if v]
         if e[2] in ('set', 'dictkeys'):
